@@ -29,9 +29,10 @@ func runC14(p *Program, r *Report) {
 	for _, m := range []struct {
 		r string
 		n int
-	}{{"C14.R1", 6}, {"C14.R4", 6}, {"C14.R5", 1}} {
+	}{{"C14.R1", 6}, {"C14.R4", 6}, {"C14.R5", 1}, {"C14.R6", 1}, {"C14.R7", 1}} {
 		r.Min(m.r, m.n)
 	}
+	checkRangeReentryAgreement(p, r, "C14.R6")
 	// ---- R1 tables -------------------------------------------------------------
 	t := checkURLProcEscapeMode(p, r, "C14.R1")
 	if t != nil {
@@ -212,6 +213,25 @@ func checkSubstitutionValidator(p *Program, r *Report, regs map[string]*RegexCon
 		r.OK("C14.R5", c, pos, "inputs with two adjacent dot units (. or %2e) are rejected: "+cond.String())
 	} else {
 		r.Viol("C14.R5", c, pos, "an input containing a \"..\" (possibly percent-encoded) passes the substitution validator", w)
+	}
+	// R7: the validator sees one substitution at a time; the browser sees it between static text and other
+	// substitutions. A value that begins or ends with a dot unit completes a ".." with a dot unit next to it.
+	{
+		const dotEdge = `^(\.|%2[eE])|(\.|%2[eE])$`
+		L2 := NewLang()
+		if err := registerSumm(L2, s, cond); err == nil {
+			L2.MustRe(dotEdge)
+			L2.Build()
+			if d2, amb2, err2 := L2.Eval(cond); err2 == nil && len(amb2) == 0 {
+				if ok, w := relang.Disjoint(d2, L2.SearchRe(dotEdge)); ok {
+					r.OK("C14.R7", c+"#dot-at-the-edge", pos, "a substitution cannot begin or end with a dot unit, so it cannot complete a \"..\" with its neighbours")
+				} else {
+					r.Viol("C14.R7", c+"#dot-at-the-edge", pos, "a substitution that begins or ends with a dot unit (. or %2e) is accepted: each piece is validated on its own, so next to a dot in the static text or in an adjacent substitution it forms a \"..\" segment after the TrustedResourceURL prefix (<script src=\"/x/.{{.A}}\"> with A=\".\")", w)
+				}
+			} else {
+				r.Undec("C14.R7", c+"#dot-at-the-edge", pos, fmt.Sprintf("%v %v", err2, amb2))
+			}
+		}
 	}
 	// the value returned with a nil error is the stringified input itself
 	okVal := true
